@@ -26,9 +26,15 @@ def check(tier, seed):
     out.assumptions = ["bounded stand-in only: seeded generated problems, not a proof",
                        "tolerance: projected gradient <= 10*max(gtol, sqrt(2 L eps max(1,|f|))) - the level at which "
                        "a decrease of the objective can no longer be observed in floating point"]
-    out.explanation = "no proof: bounded run-time contract on generated convex box problems"
+    out.explanation = ("no proof of the convergence claim: bounded run-time contract on generated convex box problems; "
+                       "plus one proved necessary condition (abnormal termination only after the memory was reset)")
     attach_standin(out, PID, tier, seed, quick_runs=2400, thorough_runs=40000,
                    what="strictly convex box QP (cond <= 1e4), QP+quartic, QP+softplus, n 1..12, maxcor 1..10, ftol=0, "
                         "ample budgets: recomputed projected gradient at the returned point")
-    out.selected = []
+    # supporting obligation that is cheap enough for every run: 'abnormal termination only after the memory was reset'
+    from props._mainbased import main_report, selector
+    rep = main_report(tier, PID)
+    out.add_report(rep, selector(PID))
+    out.extra["proved_necessary_conditions"] = {"n": len(out.selected),
+                                                "discharged": len([r for r in out.selected if r.status == "proved"])}
     return finish(out, native_replay_for(PID))
